@@ -487,6 +487,14 @@ def r11d(ctx):
     while T.op(bufroot) in ('agg', 'ix', 'upd'):
         bufroot = T.node(bufroot)[1]
     cap = a.alloc_size.get(bufroot)
+    if cap is None:
+        # &buf[0] / buf.data() of a std::vector built by the fill constructor: the count argument is the capacity
+        r = g[2][0]
+        while T.op(r) in ('agg', 'ix', 'upd', 'elem', 'addr') or (T.op(r) == 'mc' and T.node(r)[1].split('::')[-1] == 'data'):
+            r = T.node(r)[2] if T.op(r) == 'mc' else T.node(r)[1]
+        rn = T.node(r)
+        if rn[0] == 'ctor' and 'vector' in str(rn[1]) and len(rn) >= 3:
+            cap = rn[2]
     okc = False
     if cap is not None:
         need = T.mk('sizeinbase', valp, base)
